@@ -8,6 +8,7 @@ mod util;
 mod svc;
 mod gen_backend;
 mod c01;
+mod c05;
 mod c08;
 mod c09;
 mod c12;
@@ -47,6 +48,7 @@ fn dispatch(suite: &str, case: &Value) -> Value {
     match suite {
         "svc" => svc::run(case),
         "c01" => c01::run(case),
+        "c05" => c05::run(case),
         "c08" => c08::run(case),
         "c09" => c09::run(case),
         "c12" => c12::run(case),
